@@ -41,6 +41,11 @@ PARAM_MUTATION_EXCEPTIONS = {
     ("mingus.core.chords", "determine_extended_chord6.<locals>.inversion_exhauster", "polychords"): "nested helper, called with a fresh [] by its parent",
     ("mingus.core.chords", "determine_extended_chord7.<locals>.inversion_exhauster", "polychords"): "nested helper, called with a fresh [] by its parent",
 }
+# class-level tables the package only reads: (module, class, attribute) -> reason
+CLASS_CONSTANTS = {
+    ("mingus.containers.instrument", "MidiInstrument", "names"): "the General MIDI instrument name table: looked up, never assigned or edited",
+    ("fixpkg.bad", "Table", "ROWS"): "fixture",
+}
 # module-level mutable state -> functions allowed to write it
 STATE_OWNERS = {
     ("mingus.core.keys", "_key_cache"): {"get_notes"},
@@ -114,11 +119,21 @@ def rule_class_defaults(ctx, repo, mods, R, report=True):
                 init = repo.find_method(ci, "__init__")
                 rebound = init is not None and fx.must_assign_self_attr(repo, init, attr)
                 sites = [] if rebound else attr_mutation_sites(repo, attr)
-                ok = rebound or not sites
+                # a default that is a per-object slot (the package assigns it through self somewhere) must be rebound by
+                # __init__ even if the package itself never edits it in place: the caller may, and would edit the class's
+                # own list; a table the package only ever reads (CLASS_CONSTANTS, one reason each) may stay shared
+                is_slot = any(isinstance(n_, (ast.Assign, ast.AugAssign)) and any(
+                    isinstance(t_, ast.Attribute) and t_.attr == attr and isinstance(t_.value, ast.Name) and t_.value.id == "self"
+                    for t_ in (n_.targets if isinstance(n_, ast.Assign) else [n_.target]))
+                    for m_ in repo.modules.values() for n_ in ast.walk(m_.tree))
+                constant = (m.name, ci.name, attr) in CLASS_CONSTANTS and not is_slot
+                ok = rebound or (not sites and constant)
                 if report:
                     ctx.check(ok, R, "%s.%s.%s" % (m.name, ci.name, attr), m.where(ci.attr_nodes[attr]), "%s.%s = %s" % (ci.name, attr, short(val, 40)),
-                              "class-level mutable default %s.%s is not rebound by __init__ on every path and is mutated in place at %s: "
-                              "all instances (and the class) share one object" % (ci.name, attr, ["%s: %s" % (sm.where(sn), short(sn, 50)) for sm, sn in sites[:3]]),
+                              "class-level mutable default %s.%s is not rebound by __init__ on every path%s: "
+                              "all instances (and the class) share one object" % (ci.name, attr, (" and is mutated in place at %s" % [
+                                  "%s: %s" % (sm.where(sn), short(sn, 50)) for sm, sn in sites[:3]]) if sites else
+                                  " although it is a per-object slot (assigned through self elsewhere): editing one object's list edits the class's"),
                               rebound_by_init=rebound)
                 elif not ok:
                     ctx.held(R, "fixture:class-default %s.%s" % (ci.name, attr), m.where(ci.attr_nodes[attr]))
@@ -152,6 +167,8 @@ def rule_memo_escape(ctx, repo):
                (C, "triads", ["C"]), (C, "sevenths", ["G"]), (C, "triad", ["E", "C"]), (C, "seventh", ["E", "C"]),
                (C, "from_shorthand", ["Am7"]), (C, "from_shorthand", ["C|G7"]), (C, "from_shorthand", ["NC"]), (C, "from_shorthand", ["N.C."]),
                (C, "from_shorthand", ["Am/C"]), (C, "from_shorthand", [["C", "NC"]]),
+               (C, "determine", [["C"]]), (C, "determine", [["C", "E"]]), (C, "determine", [["C", "E", "G"]]), (C, "determine", [["C", "E", "G", "B"]]),
+               ("mingus.core.intervals", "invert", [["C", "E", "G"]]), (P, "determine", [["C", "E", "G"], "C"]), (S, "determine", [["C", "D", "E", "F", "G", "A", "B"]]),
                (P, "to_chords", [["I", "V7"], "C"]), (P, "to_chords", ["bIIIm7", "F"]), (P, "to_chords", ["vi", "Eb"])]
     for fn in ["tonic", "tonic7", "supertonic", "mediant7", "subdominant", "dominant7", "submediant", "subtonic7",
                "I", "ii7", "III", "IV7", "V", "vi7", "VII", "vii7"]:
@@ -162,8 +179,10 @@ def rule_memo_escape(ctx, repo):
 
         def twice(it, fi=fi, args=args):
             import copy as _copy
-            r1 = it.call_function(fi, _copy.deepcopy(args), {})
+            a1 = _copy.deepcopy(args)
+            r1 = it.call_function(fi, a1, {})
             r2 = it.call_function(fi, _copy.deepcopy(args), {})
+            it.__dict__["first_args"] = a1
             return r1, r2
         try:
             paths = explore(lambda ch: Interp(repo, ch, max_depth=30), twice)
@@ -181,7 +200,11 @@ def rule_memo_escape(ctx, repo):
                     for k_, v_ in mutable_ids(gv).items():
                         glob[k_] = (gm, gn)
             esc = [(glob[i]) for i in list(m1) + list(m2) if i in glob]
-            if shared:
+            arg_alias = set(m1) & set(mutable_ids(it.__dict__.get("first_args", [])))
+            if arg_alias:
+                ok, why = False, ("the result is (or contains) the caller's own argument object %s: modifying the returned list changes the caller's list "
+                                  "and with it the answer to the next call" % [short(repr(m1[i]), 50) for i in list(arg_alias)[:2]])
+            elif shared:
                 ok, why = False, ("two calls return the same mutable object(s) %s: modifying one answer changes what later calls return"
                                   % [short(repr(m1[i]), 50) for i in list(shared)[:2]])
             elif esc:
@@ -448,6 +471,13 @@ def rule_accelerator(ctx, repo):
             return None
         if not (isinstance(st, tuple) and len(st) == 2 and isinstance(st[1], OrdVal)):
             return "the remembered state becomes %r" % (st,)
+        rlo, rhi = it.lin_interval(it.resolve(Lin.of(st[0])))
+        # the table is strictly increasing: T[row - 1] < T[127] on this path means row - 1 < 127
+        if rhi > 127 and rhi <= 128 and entails(it, TabVal(T, Lin.of(st[0]) - 1), ast.Lt, TabVal(T, 127)) is True:
+            rhi = 127
+        if rlo < 0 or rhi > 127:
+            return ("the remembered row may be %s..%s, outside the rows 0..127 a lookup can answer: the next lookup reads the table at row + 1 "
+                    "(IndexError beyond row 127) -- the range check comes after the shortcut" % (rlo, rhi))
         w = in_row(it, st[0], st[1])
         return None if w is None else "the remembered pair (%s, %s) does not satisfy 'the frequency lies in that row': %s" % (it.resolve(Lin.of(st[0])), st[1], w)
 
